@@ -1,8 +1,9 @@
 import Driver.OpsBits
 import Driver.OpsPackets
+import Driver.OpsXtce
 namespace Driver
 
-def handlers : List (String → List SExp → Option String) := [opsBits, opsPackets]
+def handlers : List (String → List SExp → Option String) := [opsBits, opsPackets, opsXtce]
 
 def respond (line : String) : String :=
   match parseLine line with
